@@ -227,7 +227,7 @@ func genC12(r *Rng, tier string) *World {
 				v = VNil()
 			}
 			if hasStrList && v.K == "m" && r.P(0.8) {
-				v.M = append(v.M, KV{"csv", VS(Pick(r, []string{"a,b", "x", "a,,b", "ERR,1"}))})
+				v.M = append(v.M, KV{"csv", Pick(r, []Val{VS("a,b"), VS("x"), VS("a,,b"), VS("ERR,1"), VS("a,b"), VI(65), VF(2.5), VB(true)})})
 			}
 			op.Input = v
 		}
@@ -507,7 +507,15 @@ func genC04(r *Rng, tier string) *World {
 		}
 		input = VM(KV{"l", l})
 	case 3:
-		root = &Node{Kind: "struct", Fields: []*Field{{Key: "p", N: &Node{Kind: "ptr", Req: r.P(0.4), Elem: N}}}}
+		pe := N
+		if kind == "string" && mode == "parse" && r.P(0.3) {
+			// Ptr(Preprocess(fn, N)): what N receives is what fn returns - a present "n/a" arrives as an absent ""
+			pe = &Node{Kind: "pre", CT: "any_str", Elem: N}
+			if !missing && class == 1 && r.P(0.6) {
+				inN = VS("n/a")
+			}
+		}
+		root = &Node{Kind: "struct", Fields: []*Field{{Key: "p", N: &Node{Kind: "ptr", Req: r.P(0.4), Elem: pe}}}}
 		input = VM()
 		if !missing {
 			input.M = append(input.M, KV{"p", inN})
